@@ -94,6 +94,13 @@ M = [
     ('C20', 'bz2-truncates-64k', 'pgpy/constants.py', "            return bz2.compress(data)", "            return bz2.compress(data[:65536])"),
     ('C20', 'onepass-wrong-issuer', 'pgpy/pgp.py', "        onepass.signer = self.signer\n", "        onepass.signer = self.signer[::-1]\n"),
     ('C20', 'literal-format-always-binary', 'pgpy/pgp.py', "            lit.format = format\n", "            lit.format = 'b'\n"),
+    ('C11', 'dash-escape-only-when-not-followed-by-space', 'pgpy/pgp.py', "        return re.subn(r'^-', '- -', text, flags=re.MULTILINE)[0]", "        return re.subn(r'^-(?! )', '- -', text, flags=re.MULTILINE)[0]"),
+    ('C11', 'unescape-global-replace', 'pgpy/pgp.py', "        return re.subn(r'^- ', '', text, flags=re.MULTILINE)[0]", "        return text.replace('- ', '')"),
+    ('C11', 'canonicalise-to-lf-both-sides', 'pgpy/pgp.py', "            _data += re.subn(br'\\r?\\n', b'\\r\\n', subject)[0]", "            _data += re.subn(br'\\r?\\n', b'\\n', subject)[0]"),
+    ('C11', 'hash-header-dropped', 'pgpy/pgp.py', "            hhdr = 'Hash: {hashes:s}\\n'.format(hashes=','.join(sorted(hashes))) if hashes else ''", "            hhdr = ''"),
+    ('C11', 'trailing-blanks-signed-again', 'pgpy/pgp.py', "        if self.type != 'cleartext':\n            return self.message\n", "        if True:\n            return self.message\n"),
+    ('C11', 'crlf-normalisation-removed', 'pgpy/pgp.py', "            cleartext = unarmored['cleartext'].replace('\\r\\n', '\\n')\n            if cleartext.endswith('\\r'):\n                cleartext = cleartext[:-1]", "            cleartext = unarmored['cleartext']"),
+    ('C11', 'text-signature-type-binary', 'pgpy/pgp.py', "                sig_type = SignatureType.CanonicalDocument\n                subject = subject._signed_text", "                subject = subject._signed_text"),
 ]
 
 
